@@ -161,8 +161,8 @@ Definition fax_capacity (columns rows : N) : res N :=
    error value.  [columns], [rows]: the u32 parameters, [k]: the i32 parameter.  Each guard is read from the source
    (Gen/Generated.v, the fax_ flags); with a guard missing the model does what the code did before the repair. *)
 Definition fax_geometry (k : Z) (columns rows : N) : res (N * option N) :=
-  if (0 <=? k)%Z then (if fax_k_guard =? 1 then Err E_NUM else Panic 1004)               (* bail! / unimplemented!() *)
-  else
+  (* `if params.k >= 0 { bail!(..) }` (the crate's unimplemented!() is a bail! too); without the test K >= 0 is decoded as Group 4 *)
+  if (0 <=? k)%Z && (fax_k_guard =? 1) then Err E_NUM else
   do w <- (if fax_columns_guard =? 1
            then (if (columns =? 0) || (U16 <=? columns) then Err E_NUM else Ok columns)   (* u16::try_from(columns), c > 0 *)
            else Ok columns);                                                              (* `columns as usize`, any value *)
